@@ -408,7 +408,12 @@ func (ctx drawContext) drawBackground(bg *bo.Background, clipBox bool, bleed bo.
 
 	ctx.dst.OnNewStack(func() {
 		if clipBox {
-			for _, box := range bg.Layers[len(bg.Layers)-1].ClippedBoxes {
+			clippedBoxes := bg.Layers[len(bg.Layers)-1].ClippedBoxes
+			if len(clippedBoxes) == 0 {
+				// nothing to paint in (a table column without cells): no path, no clip
+				return
+			}
+			for _, box := range clippedBoxes {
 				roundedBoxPath(ctx.dst, box)
 			}
 			ctx.dst.State().Clip(false)
